@@ -107,9 +107,17 @@ Definition format_value (v : bytes) : bytes :=
   if is_quoted v [34%N; 39%N] then v else [39%N] ++ v ++ [39%N].
 Definition format_values (vs : list bytes) : bytes := join_comma (map format_value vs).
 
-(** sqlx.Builder.Ident: opening quote, the name as is, closing quote (the trailing space that the
-    builder appends is not part of the token). *)
+(** sqlx.Builder.Ident (fix C16-ident-double-quote-char): opening quote, the name with every
+    closing-quote byte written twice, closing quote (the trailing space that the builder appends
+    is not part of the token).  [raw_ident] is the spelling before the fix (the name as is). *)
+Fixpoint double_q (q : N) (s : bytes) : bytes :=
+  match s with
+  | [] => []
+  | c :: t => if N.eqb c q then q :: q :: double_q q t else c :: double_q q t
+  end.
 Definition ident (qo qc : N) (s : bytes) : bytes :=
+  match s with [] => [] | _ => [qo] ++ double_q qc s ++ [qc] end.
+Definition raw_ident (qo qc : N) (s : bytes) : bytes :=
   match s with [] => [] | _ => [qo] ++ s ++ [qc] end.
 
 (** a closed literal token for a scanner whose backslash handling is [esc]: the token is a
